@@ -301,6 +301,10 @@ cdef class cyDiscreteQuadraticModel:
         cdef Py_ssize_t num_interactions = irow.shape[0]
 
         # check that starts and linear_biases are correct and consistent with eachother
+        if num_variables == 0 and num_cases != 0:
+            raise ValueError("case_starts does not match linear_biases")
+        if num_variables and (case_starts[0] != 0 or case_starts[num_variables - 1] >= num_cases):
+            raise ValueError("case_starts does not match linear_biases")
         for v in range(case_starts.shape[0] - 1):
             if case_starts[v+1] < case_starts[v]:
                 raise ValueError("case_starts is not correctly ordered")
